@@ -80,16 +80,17 @@ fn write_summary(ctx: &Ctx, prop: &str, s: &Summary, rule: &str, extra: &str) {
     std::fs::create_dir_all(&ctx.out).unwrap();
     let mut rq = std::io::BufWriter::new(std::fs::File::create(format!("{}/requests.txt", ctx.out)).unwrap());
     let mut im = std::io::BufWriter::new(std::fs::File::create(format!("{}/impl.txt", ctx.out)).unwrap());
-    // the model driver answers every request; keep its share of a run bounded (requests are in
-    // generation order, so the cut is deterministic): by count and by volume
-    let (max_n, max_bytes) = if ctx.thorough() { (40000usize, 600_000_000usize) } else { (14000, 250_000_000) };
-    let mut bytes = 0usize;
+    // the model driver answers every request; keep its share of a run bounded by count and by
+    // volume. Over the bound the requests are thinned by a fixed stride (deterministic, and every
+    // generator family and request kind keeps its share) rather than cut off at the end.
+    let (max_n, max_bytes) = if ctx.thorough() { (160000usize, 2_000_000_000usize) } else { (14000, 250_000_000) };
+    let total_bytes: usize = s.requests.iter().map(|(a, _)| a.len()).sum();
+    let stride = std::cmp::max((s.requests.len() + max_n - 1) / max_n.max(1), (total_bytes + max_bytes - 1) / max_bytes.max(1)).max(1);
     let mut written = 0usize;
-    for (a, b) in &s.requests {
-        if written >= max_n || bytes + a.len() > max_bytes {
-            break;
+    for (i, (a, b)) in s.requests.iter().enumerate() {
+        if i % stride != 0 {
+            continue;
         }
-        bytes += a.len();
         written += 1;
         writeln!(rq, "{a}").unwrap();
         writeln!(im, "{b}").unwrap();
@@ -184,7 +185,7 @@ fn run_property(ctx: &Ctx, prop: &str) {
             let mut s = Summary::default();
             let corpus = corpus_streams();
             merge(&mut s, run_cases(ctx, corpus.len() as u64, |i| streams::c07_case(&corpus[i as usize].0, &corpus[i as usize].1)));
-            let n = ctx.n(1500, 20000);
+            let n = ctx.n(1500, 60000);
             merge(&mut s, run_cases(ctx, n, |i| {
                 let c = streams::case(seed, i, 70000, false);
                 streams::c07_case(&c.s.bytes, &c.s.label)
@@ -223,7 +224,7 @@ fn run_property(ctx: &Ctx, prop: &str) {
                 let c = streams::Case { s: gen::StreamCase { bytes: corpus[i as usize].0.clone(), label: corpus[i as usize].1.clone(), plain: None }, source: streams::Source::Own };
                 streams::c03_case(&c, i)
             }));
-            let n = ctx.n(2500, 15000);
+            let n = ctx.n(2500, 60000);
             merge(&mut s, run_cases(ctx, n, |i| {
                 let c = streams::case(seed, i, 70000, false);
                 streams::c03_case(&c, i)
@@ -304,7 +305,7 @@ fn run_property(ctx: &Ctx, prop: &str) {
             });
             t.samples.truncate(1);
             merge(&mut s, t);
-            let n = ctx.n(2500, 40000);
+            let n = ctx.n(2500, 120000);
             merge(&mut s, run_cases(ctx, n, |i| {
                 let c = streams::case(seed ^ 0x05, i, 70000, false);
                 let mut o = streams::c05_bytes(&c.s.bytes, &c.s.label, i % 4 == 0 && c.s.bytes.len() < 20000);
@@ -340,7 +341,7 @@ fn run_property(ctx: &Ctx, prop: &str) {
             });
             t.samples.truncate(1);
             merge(&mut s, t);
-            let nl = ctx.n(300, 6000);
+            let nl = ctx.n(300, 20000);
             let mut t = run_cases(ctx, nl, |i| {
                 let c = streams::lazy_small_block_case(seed, i);
                 let mut o = streams::c02_case(&c, &mut Rng::new(seed ^ (i << 24)));
@@ -350,7 +351,7 @@ fn run_property(ctx: &Ctx, prop: &str) {
             });
             t.samples.truncate(1);
             merge(&mut s, t);
-            let n = ctx.n(1500, 25000);
+            let n = ctx.n(1500, 100000);
             merge(&mut s, run_cases(ctx, n, |i| {
                 let c = streams::case(seed ^ 0x02, i, 70000, false);
                 let mut o = streams::c02_case(&c, &mut Rng::new(seed ^ (i << 20)));
@@ -387,7 +388,7 @@ fn run_property(ctx: &Ctx, prop: &str) {
             });
             t.samples.truncate(1);
             merge(&mut s, t);
-            let n = ctx.n(700, 10000);
+            let n = ctx.n(700, 30000);
             merge(&mut s, run_cases(ctx, n, |i| {
                 let c = streams::case(seed ^ 0x08, i, 40000, true);
                 streams::c08_case(&c, &mut Rng::new(seed ^ (i << 20)), 6, maxlim)
